@@ -85,6 +85,8 @@ func vCasBlobFile(t *testing.T, data []byte, hash string) []byte {
 	return b
 }
 
+var vLostUploads int
+
 func TestVerifHTTPProxyRoundTrip(t *testing.T) {
 	rec := vNewRecorder(t, "httpproxy")
 	defer rec.Close(t)
@@ -121,7 +123,12 @@ func TestVerifHTTPProxyRoundTrip(t *testing.T) {
 				want := strings.TrimRight(base, "/") + "/" + dir + "/" + hash
 				p.Put(ctx, kind, hash, int64(n), int64(len(stored)), io.NopCloser(bytes.NewReader(stored)))
 				arrived := false
-				for i := 0; i < 300; i++ {
+				// asynchronous upload: patient on a loaded machine (30 s), short once two uploads were lost for good
+				wait := 3000
+				if vLostUploads >= 2 {
+					wait = 300
+				}
+				for i := 0; i < wait; i++ {
 					st.mu.Lock()
 					b, ok := st.m[want]
 					st.mu.Unlock()
@@ -136,6 +143,7 @@ func TestVerifHTTPProxyRoundTrip(t *testing.T) {
 				rec.Count(fmt.Sprintf("arrived=%v", arrived))
 				rec.Distinct(sig)
 				if !arrived {
+					vLostUploads++
 					var names []string
 					st.mu.Lock()
 					for k := range st.m {
